@@ -9,7 +9,9 @@
    serves each sequence through its own StateValidityChecker to the real samplers.
 3. The harness records the outputs of every state sampler (space x bound setting x centre class x
    distance class x seed), of the valid-state samplers over grid worlds, and enforceBounds on
-   off-lattice inputs.
+   off-lattice inputs.  Spaces without a lattice model are covered here only: Owen / Vana / VanaOwen,
+   SpaceTime (bounded and unbounded time), EmptyStateSpace, and the projected / atlas / tangent-bundle
+   spaces over R^3 with the unit sphere as constraint (centres on the sphere).
 4. All logged observations are validated by TLC against the contract (specs/base/SamplerTrace.tla):
    that is where verdicts come from.
 """
@@ -36,6 +38,10 @@ REQUIRED_CLASSES = [
     "SE2/SO2:nofmod:minus2pi:exact+pi", "SE3/SO3:zero", "Nested/Disc:above", "Wrapper/SO2:fmod:plus2pi",
     "Torus/SO2:fmod:minus2pi", "Sphere/RV:above", "Klein/RV:below", "Mobius/RV:at-hi",
 ]
+# spaces without a lattice model whose samplers and enforceBounds the recording must have driven (prefix of the
+# recorded space name): 3-D Dubins airplane spaces, space-time, the empty space, constrained spaces over R^3
+REQUIRED_RECORDED = ["Owen/", "Vana/", "VanaOwen/", "SpaceTime/", "Empty", "ProjectedSphere/", "AtlasSphere/",
+                     "TangentBundleSphere/"]
 
 
 def _tier(tier):
@@ -352,6 +358,18 @@ def run(tier):
         ck.set("grid_world_returned_true", summ["valid_true"])
         ck.set("grid_world_returned_false", summ["valid_false"])
         evs = vlib.read_ndjson(tpath_r)
+        per_space = {}
+        for e in evs:
+            if e.get("e") in ("Sample", "EnforceOff"):
+                for pre in REQUIRED_RECORDED:
+                    if e["sp"].startswith(pre):
+                        k = pre.rstrip("/") + (":sampler_outputs" if e["e"] == "Sample" else ":enforce_inputs")
+                        per_space[k] = per_space.get(k, 0) + len(e["in"] if e["e"] == "Sample" else e["inb0"])
+        absent = [pre for pre in REQUIRED_RECORDED
+                  if not per_space.get(pre.rstrip("/") + ":sampler_outputs") or not per_space.get(pre.rstrip("/") + ":enforce_inputs")]
+        if absent:
+            raise FrameworkError("vacuity gate: spaces never driven by the recording: %s" % absent)
+        ck.set("record_new_spaces", per_space)
         ck.sample({"kind": "recorded sampler class", "event": {k: (v if not isinstance(v, list) else "%d flags" % len(v))
                                                                for k, v in evs[len(evs) // 2].items()}})
         _validate(ck, tpath_r, "record", details_r)
